@@ -20,6 +20,10 @@
 EXTENDS SchemaFamily
 
 Ann(fd) == IF "ann" \in DOMAIN fd THEN fd.ann ELSE ""
+\* a field may carry both annotations
+Both == "go.redact, go.nolog"
+IsRedact(fd) == Ann(fd) \in {"go.redact", Both}
+IsNolog(fd)  == Ann(fd) \in {"go.nolog", Both}
 
 CONSTANT RawKinds       \* container kinds that print their items raw, bypassing the item's own redaction ({} in the templates)
 
@@ -34,7 +38,7 @@ LeavesFields(S, fields, v, red, nolog, i) ==
   IF i > Len(fields) THEN {}
   ELSE LET fd == fields[i] given == FieldValue(v, fd.name) IN
        (IF given = NoDef THEN {}
-        ELSE Leaves(S, fd.t, given, red \/ Ann(fd) = "go.redact", nolog \/ Ann(fd) = "go.nolog"))
+        ELSE Leaves(S, fd.t, given, red \/ IsRedact(fd), nolog \/ IsNolog(fd)))
        \cup LeavesFields(S, fields, v, red, nolog, i + 1)
 Leaves(S, t, v, red, nolog) ==
   LET r == Root(S, t) IN
@@ -55,7 +59,7 @@ EmSeq(S, t, vs, sink, raw) == UNION { Emitted(S, t, vs[i], sink, raw) : i \in 1.
 EmFields(S, fields, v, sink, raw, i) ==
   IF i > Len(fields) THEN {}
   ELSE LET fd == fields[i] given == FieldValue(v, fd.name)
-           hide == ~raw /\ (Ann(fd) = "go.redact" \/ (sink = "zap" /\ Ann(fd) = "go.nolog")) IN
+           hide == ~raw /\ (IsRedact(fd) \/ (sink = "zap" /\ IsNolog(fd))) IN
        (IF given = NoDef \/ hide THEN {} ELSE Emitted(S, fd.t, given, sink, raw))
        \cup EmFields(S, fields, v, sink, raw, i + 1)
 Emitted(S, t, v, sink, raw) ==
